@@ -106,7 +106,16 @@ func newCrashFS() *crashFS {
 		created: map[string]bool{}, idsUsed: map[uint64]string{}}
 }
 
-var errInjected = errors.New("injected I/O fault")
+// injected faults claim to be temporary (like EINTR / EAGAIN / ETIMEDOUT): code that retries the
+// failed call instead of failing the operation -- fatal for fsync, whose failure may already
+// have dropped the dirty pages -- then returns nil where the model returns an error
+type injErr struct{ msg string }
+
+func (e *injErr) Error() string   { return e.msg }
+func (e *injErr) Temporary() bool { return true }
+func (e *injErr) Timeout() bool   { return true }
+
+var errInjected error = &injErr{"injected I/O fault"}
 var errReadInjected = errors.New("injected read error (EIO)")
 
 // record appends the action; returns false when the action must fail.
